@@ -51,6 +51,9 @@ pub fn main(args: &[String]) -> i32 {
             match r {
                 Some(r) => println!("{}", serde_json::to_string_pretty(&serde_json::json!({"result": r.result, "error": r.error.map(|e| e.message)})).unwrap()),
                 None => println!("no response; panics: {:?}", crate::engine::take_panics()),
+            }
+            0
+        }
         // `nest-thresholds [kind ...]`: smallest depth per nesting kind whose parse kills a 2 MiB-stack worker
         Some("nest-thresholds") => {
             use crate::engine::{worker, Property, Verdict};
